@@ -52,8 +52,12 @@ func VerifC18PrepareSender(c *MConnection) {
 	c.flushTimer = cmn.NewThrottleTimer("flush", c.config.FlushThrottle)
 }
 
-// VerifC18ReleaseSender stops the timer created by VerifC18PrepareSender.
-func VerifC18ReleaseSender(c *MConnection) { c.flushTimer.Stop() }
+// VerifC18ReleaseSender stops the timer created by VerifC18PrepareSender. If the connection already stopped
+// itself (stopForError after a failed write) the timer is stopped already; stopping it twice panics.
+func VerifC18ReleaseSender(c *MConnection) {
+	defer func() { recover() }()
+	c.flushTimer.Stop()
+}
 
 // VerifC18Enqueue queues a message on a channel the way TrySend does after its IsRunning/len checks
 // (the stepped sender is not running, and waking sendRoutine is not wanted).
